@@ -38,7 +38,19 @@ def look_scenarios(rng, n):
             op['consume_pause'] = {'kind': 'hash', 'salt': rng.randint(0, 99), 'unit': rng.choice([0.01, 0.1, 0.3])}
         if rng.random() < .2:
             op['worker_lifespan'] = rng.choice([1, 2, 3])
-        scs.append({'seed': rng.randint(0, 10 ** 6), 'pool': pool, 'ops': [op]})
+        if rng.random() < .25:
+            op['progress_bar'] = True          # showing a bar must not make the call read ahead (also when the length is unknown)
+        sc = {'seed': rng.randint(0, 10 ** 6), 'pool': pool, 'ops': [op]}
+        if rng.random() < .2 and op.get('max_tasks_active') is not None and 'chunk_size' in op:
+            # a kept-alive pool: an earlier call with the SAME function and a generous bound, then this call with its own (small) bound
+            import copy
+            pool['keep_alive'] = True
+            first = copy.deepcopy(op)
+            first['max_tasks_active'] = rng.choice([20, 50])
+            first.pop('consume_pause', None)
+            sc['ops'] = [first, op]
+            sc['same_func'] = True
+        scs.append(sc)
     return scs
 
 
@@ -50,9 +62,9 @@ def run(chk):
     scs = look_scenarios(rng, 400 if chk.tier == 'quick' else 6000)
     obs = run_scenarios(chk, 'imap_unordered with counting input and pausing consumer under DetSim', scs, {'C15', 'C03'},
                         nontrivial=lambda sc, o: sc['ops'][0]['n'] >= 4,
-                        dist=lambda sc, o: {'bound_vs_chunk': 'default' if sc['ops'][0].get('max_tasks_active') is None else
-                                            ('derived chunk size' if sc['ops'][0].get('chunk_size') is None else
-                                             'below' if sc['ops'][0]['max_tasks_active'] < math.ceil(sc['ops'][0]['chunk_size']) else 'at-or-above'),
+                        dist=lambda sc, o: {'bound_vs_chunk': 'default' if sc['ops'][-1].get('max_tasks_active') is None else
+                                            ('derived chunk size' if sc['ops'][-1].get('chunk_size') is None else
+                                             'below' if sc['ops'][-1]['max_tasks_active'] < math.ceil(sc['ops'][-1]['chunk_size']) else 'at-or-above'),
                                             'consumer': 'pausing' if sc['ops'][0].get('consume_pause') else 'greedy', 'input': sc['ops'][0]['input']})
     lines, refs = [], []
     for sc, o in zip(scs, obs):
